@@ -1,0 +1,18 @@
+//go:build verif
+
+package genetics
+
+// Verification hooks for property C15 (build tag `verif`, add-only): read-only accessors and setters
+// for the unexported fields that take part in the organism binary form and the population reader.
+
+// VC15PopCounters reads Population.nextNodeId and Population.nextInnovNum
+func VC15PopCounters(p *Population) (int32, int64) { return p.nextNodeId, p.nextInnovNum }
+
+// VC15OrgSet sets Organism.highestFitness and Organism.isPopulationChampionChild
+func VC15OrgSet(o *Organism, highest float64, champChild bool) {
+	o.highestFitness = highest
+	o.isPopulationChampionChild = champChild
+}
+
+// VC15OrgGet reads Organism.highestFitness and Organism.isPopulationChampionChild
+func VC15OrgGet(o *Organism) (float64, bool) { return o.highestFitness, o.isPopulationChampionChild }
